@@ -683,7 +683,7 @@ impl FixedScen {
             510_000_000_000_000_000,
             600_000_000_000_000_000,
             666_666_666_666_666_667,
-            666_666_666_666_666_666,
+            500_000_100_000_000_000, // 0.5000001: 'strictly more than half' with 7 decimals
             750_000_000_000_000_000,
             ONE,
             999_999_999_999_999_999,
